@@ -7,14 +7,22 @@
 (* the events are, in the order the library performs the steps:            *)
 (*   TimeWarp, FreqWarp, TimeMask, FreqMask : the drawn parameters of the  *)
 (*        step (on = 0: the returned parameter was empty),                 *)
-(*   Grid  : half-frame quantisation of the linear warp's sampling grid,   *)
+(*   Grid  : half-frame quantisation of the linear warp's sampling grid    *)
+(*           (of warp_1d_grid itself, or as observed through an entry      *)
+(*           point on ramp features; also for the deterministic "long      *)
+(*           padded batch" family, where the valid length is much shorter  *)
+(*           than the padded one),                                         *)
 (*   Apply : the set of zeroed cells of the output and the number of       *)
 (*           other cells that differ from the input,                       *)
+(*   Hull  : finiteness and the range of the non-masked output cells of    *)
+(*           the element against the range of its input plane, in units of *)
+(*           1/1024, for a warp of any interpolation order,                *)
 (*   Shape : the output's shape,   Eval : cells changed in eval mode.      *)
 (* An event is accepted iff the documented bound / effect (TimeMaskOK,     *)
-(* FreqMaskOK, WarpOK, Masked, GridOK) allows it.  An EMPTY parameter      *)
-(* respects every limit and is always accepted; whether a step is enabled  *)
-(* exactly when all its limits are non-zero is documented by the library   *)
+(* FreqMaskOK, WarpOK, Masked, GridOK, HullOK) allows it.  An EMPTY        *)
+(* parameter respects every limit and is always accepted; whether a step   *)
+(* is enabled exactly when all its limits are non-zero is documented by    *)
+(* the library                                                             *)
 (* but is not a clause of the property: a mismatch is exported as an       *)
 (* informational record (Informational) and never rejects.  Acceptance of  *)
 (* the batch: every trace is consumed completely (POSTCONDITION            *)
@@ -79,6 +87,12 @@ TApply ==
   /\ {Ev.zero[k] : k \in 1..Len(Ev.zero)} = Masked(Tr.T, Tr.F, par.t0, par.t, par.f0, par.f)
   /\ (Ev.exact = 1 => Ev.changed = 0)
   /\ par' = par /\ Keep
+\* no warp of any order yields a non-finite value or one outside the range of its input (the
+\* element's own padded plane; masked cells, validated by the preceding Apply event, excluded)
+THull ==
+  /\ Ev.a = "Hull"
+  /\ HullOK(Ev.order, Ev.finite, Ev.inlo, Ev.inhi, Ev.outlo, Ev.outhi)
+  /\ par' = par /\ Keep
 TShape ==
   /\ Ev.a = "Shape"
   /\ Ev.shape = Tr.shape                      \* the output always has the input's shape
@@ -89,13 +103,21 @@ TEval ==
   /\ par' = par /\ Keep
 
 TNext == /\ pos < Len(Tr.ev)
-         /\ (TTimeWarp \/ TFreqWarp \/ TTimeMask \/ TFreqMask \/ TGrid \/ TApply \/ TShape \/ TEval)
+         /\ (TTimeWarp \/ TFreqWarp \/ TTimeMask \/ TFreqMask \/ TGrid \/ TApply \/ THull \/ TShape \/ TEval)
          /\ pos' = pos + 1 /\ i' = i
 
 TDone == pos = Len(Tr.ev)
 Accept == TDone => (Emit([tid |-> Tr.tid]) /\ TLCSet(1, TLCGet(1) + 1))
 \* longest accepted prefix of every trace (to report the first rejected event)
 Progress == Emit([tid |-> Tr.tid, upto |-> pos])
+\* diagnosis only: which clause(s) of GridOK a Grid event fails (classification of a rejected grid
+\* comes from the specification, not from the harness)
+B2I(b) == IF b THEN 1 ELSE 0
+GridDiag ==
+  (pos < Len(Tr.ev) /\ Ev.a = "Grid") =>
+    LET L == IF Ev.axis = "time" THEN len ELSE Tr.F
+    IN Emit([tid |-> Tr.tid, gridat |-> pos, order |-> B2I(GridOrderOK(Ev.q, L)),
+             first |-> B2I(GridFirstOK(Ev.q, L)), last |-> B2I(GridLastOK(Ev.q, L))])
 ASSUME TLCSet(1, 0)
 AllAccepted == /\ PrintT(<<"accepted", TLCGet(1), "of", Len(Traces)>>)
                /\ TLCGet(1) = Len(Traces)
